@@ -1329,7 +1329,40 @@ def rule_text_carrier_domain(ck, F):
     # which types get a numeric facet at all is decided where the facets are written: a bound is the facet's text read as one integer
     # (C07.R6 `partial-text`, kept: a bound made from the part of `0.00` in front of the point puts decimal types under the integer check)
     from rules import c04 as C04
-    T.c07_template_rules(C04._Sub(ck, "R8", lambda key: "partial-text" in key), F)
+    # .. and the check is handed the facets as declared (kept from C07.R5: the set that arrives from a derived type reaches a check of
+    # its own) — and no function of the emitted module makes a set of facets out of others: a facet of a set that is checked is a
+    # declared value or absent, never the result of a computation (`Some(100).min(None)` is `None`: the smaller of two upper bounds
+    # taken with `Option::min` loses the bound that only one of the sets has)
+    T.c07_template_rules(C04._Sub(ck, "R8", lambda key: "partial-text" in key or ":incoming-" in key), F)
+    n_sets = 0
+    for b in scans.bodies(F.lib):
+        if "helpers_content" not in b["path"] or "tests::" in b["path"]:
+            continue
+        B = M.Body(b)
+        for i in sorted(B.reach):
+            for st in B.blocks[i]["stmts"]:
+                rv = st.get("rv") or {}
+                if not (st["k"] == "assign" and rv.get("k") == "aggregate" and rv.get("ak") == "adt" and str(rv.get("adt", "")).endswith("helpers_content::restrictions::Restrictions")):
+                    continue
+                n_sets += 1
+                names = rv.get("fields") or []
+                computed = []
+                for fname, op in zip(names, rv["ops"]):
+                    for o in M.trace(B, op):
+                        plain = (o.kind == "const" or (o.kind == "aggregate" and o.rv.get("variant") == "None")
+                                 or (o.kind == "call" and (M.Body.callee_decl(o.term) or "").endswith(("default::Default::default", "Vec::<T>::new", "Option::<T>::None")))
+                                 or (o.kind in ("arg", "upvar") and (not o.fields() or o.fields()[-1] == fname)))
+                        if not plain:
+                            computed.append((fname, (M.Body.callee_decl(o.term) or "?").rsplit("::", 1)[-1] if o.kind == "call" else o.kind))
+                short = b["path"].rsplit("::", 1)[-1]
+                if computed:
+                    ck.violation("R8", f"facet-computed:{short}:{computed[0][0]}", st.get("sp"),
+                                 f"{b['path']} builds a set of facets whose `{computed[0][0]}` is the result of `{computed[0][1]}` "
+                                 f"({', '.join(sorted({c_[0] for c_ in computed}))}): what a value is checked against is then not what a schema declares "
+                                 f"(a bound present in only one of two merged sets is lost by `Option::min`, kept by `Option::max`)", fn=b["path"])
+                else:
+                    ck.ok("R8", f"facet-set-plain:{short}", st.get("sp"), "a set of facets built in the emitted module holds declared values only", fn=b["path"])
+    ck.floor("R8", "constructions of a facet set in the emitted module", n_sets, 1)
 
 
 def run(ck, F):
